@@ -14,9 +14,9 @@ EXTENDS SchedOps, TLC, Json, IOUtils
 Batch  == JsonDeserialize(IOEnv.TRACE_FILE)
 Traces == Batch.traces
 
-VARIABLES tid, l, O, active, pool, H, where, rep, rel, hist, named, errs, fin
+VARIABLES tid, l, O, active, pool, H, where, rep, rel, hist, named, namedc, errs, fin
 
-vars == <<tid, l, O, active, pool, H, where, rep, rel, hist, named, errs, fin>>
+vars == <<tid, l, O, active, pool, H, where, rep, rel, hist, named, namedc, errs, fin>>
 
 T       == Traces[tid]
 Ev      == T.events
@@ -51,7 +51,7 @@ Init ==
   /\ where = [t \in Uids |-> "none"]
   /\ rep = [t \in Uids |-> 0] /\ rel = [t \in Uids |-> 0]
   /\ hist = [g \in Tags |-> {}]
-  /\ named = {}
+  /\ named = {} /\ namedc = {}
   /\ errs = {} /\ fin = FALSE
 
 (* ---- ghost invariants over what is held (C01) -------------------------- *)
@@ -93,9 +93,11 @@ Step ==
                     \cup UNION {E(where[t] = "none", "C04.ArrivedTwice") : t \in SeqSet(e.uids)}
                     \cup E(lo = O, "C01.MapChangedSilently")
                     \cup PoolErrs(lp, where')
-               /\ UNCHANGED <<H, rep, rel, hist, named>>
+               /\ UNCHANGED <<H, rep, rel, hist, named, namedc>>
           [] e.ev = "CancelReq" ->
                /\ named' = named \cup SeqSet(e.uids)
+               \* requests that reached the scheduler process (not only the parent part)
+               /\ namedc' = IF e.to = "child" THEN namedc \cup SeqSet(e.uids) ELSE namedc
                /\ errs' = errs \cup e0 \cup E(lo = O, "C01.MapChangedSilently")
                /\ UNCHANGED <<H, where, rep, rel, hist>>
           [] e.ev = "QGet" ->
@@ -105,7 +107,7 @@ Step ==
                                            ELSE where[t]]
                /\ errs' = errs \cup e0 \cup E(lo = O, "C01.MapChangedSilently")
                     \cup PoolErrs(lp, where')
-               /\ UNCHANGED <<H, rep, rel, hist, named>>
+               /\ UNCHANGED <<H, rep, rel, hist, named, namedc>>
           [] e.ev = "Try" ->
                LET t == e.uid sh == Sh(t) hs == HistOf(hist, t) IN
                IF e.res = "grant" THEN
@@ -140,17 +142,17 @@ Step ==
                                             /\ Fits(O, Sh(u), HistOf(hist, u), FALSE, FALSE)),
                                           "C04.PriorityInversion") : u \in pool \ {t}}
                             ELSE {})
-                 /\ UNCHANGED <<rep, rel, named>>
+                 /\ UNCHANGED <<rep, rel, named, namedc>>
                ELSE IF e.res = "nofit" THEN
                  /\ where' = [where EXCEPT ![t] = IF @ = "sched" THEN "nofit" ELSE @]
                  /\ errs' = errs \cup e0 \cup E(lo = O, "C01.MapChangedSilently") \cup PoolErrs(lp, where')
-                 /\ UNCHANGED <<H, rep, rel, hist, named>>
+                 /\ UNCHANGED <<H, rep, rel, hist, named, namedc>>
                ELSE \* raise
                  /\ where' = [where EXCEPT ![t] = "raised"]
                  /\ errs' = errs \cup e0 \cup E(lo = O, "C01.MapChangedSilently")
                       \cup E(Oversize(sh) \/ ~FitsIdle(sh, hs) \/ e.legit, "C04.FalseFailure")
                       \cup PoolErrs(lp, where')
-                 /\ UNCHANGED <<H, rep, rel, hist, named>>
+                 /\ UNCHANGED <<H, rep, rel, hist, named, namedc>>
           [] e.ev = "Adv" ->
                LET t == e.uid IN
                /\ rep' = [rep EXCEPT ![t] = @ + 1]
@@ -176,10 +178,10 @@ Step ==
                          \cup E(lo = O, "C01.MapChangedSilently")
                          \cup PoolErrs(lp, where')
                     /\ UNCHANGED H
-               /\ UNCHANGED <<rel, hist, named>>
+               /\ UNCHANGED <<rel, hist, named, namedc>>
           [] e.ev = "QGetU" ->
                /\ errs' = errs \cup e0 \cup E(lo = O, "C01.MapChangedSilently") \cup PoolErrs(lp, where)
-               /\ UNCHANGED <<H, where, rep, rel, hist, named>>
+               /\ UNCHANGED <<H, where, rep, rel, hist, named, namedc>>
           [] e.ev = "Release" ->
                LET t  == e.uid
                    h2 == [H EXCEPT ![t] = <<>>] IN
@@ -193,7 +195,7 @@ Step ==
                           THEN E(lo = Mark(O, H[t], "F"), "C03.NotRestored") ELSE {})
                     \cup (IF Holding(h2) = {} THEN E(lo = InitOcc, "C03.IdleNotInitial") ELSE {})
                     \cup PoolErrs(lp, where')
-               /\ UNCHANGED <<rep, hist, named>>
+               /\ UNCHANGED <<rep, hist, named, namedc>>
           [] e.ev = "Sleep" ->
                LET wt == Waiting(where) IN
                /\ where' = [t \in Uids |-> IF t \in wt /\ t \in lp THEN "waiting" ELSE where[t]]
@@ -206,7 +208,7 @@ Step ==
                     \cup UNION {E(t \in wt, "C04.PoolGhost") : t \in lp}
                     \cup UNION {E(where[t] \notin {"sched", "granted", "raised"}, "C04.LeftBehind") : t \in Uids}
                     \* a named task does not stay in the pool once the request was handled
-                    \cup (IF e.cancel_drained THEN UNION {E(t \notin named, "C08.NamedStillWaiting") : t \in lp} ELSE {})
+                    \cup (IF e.cancel_drained THEN UNION {E(t \notin namedc, "C08.NamedStillWaiting") : t \in lp} ELSE {})
                     \cup (IF T.scattered /\ e.quiet THEN
                             LET fits(t) == Fits(lo, Sh(t), HistOf(hist, t), FALSE, FALSE)
                                 nonenv  == {t \in lp : ~Sh(t).named_env} IN
@@ -217,17 +219,17 @@ Step ==
                                      \cup (IF Cardinality(lp) = 1 THEN {"C04.UnfitAloneNotFailed"} ELSE {})
                                 ELSE {})
                           ELSE {})
-               /\ UNCHANGED <<H, rep, rel, hist, named>>
+               /\ UNCHANGED <<H, rep, rel, hist, named, namedc>>
           [] OTHER ->
                /\ errs' = errs \cup {"X.UnknownEvent"}
-               /\ UNCHANGED <<H, where, rep, rel, hist, named>>
+               /\ UNCHANGED <<H, where, rep, rel, hist, named, namedc>>
   /\ UNCHANGED tid
 
 Finish ==
   /\ ~fin /\ l > Len(Ev)
   /\ fin' = TRUE
   /\ PrintT(<<"RESULT", T.tid, errs>>)
-  /\ UNCHANGED <<tid, l, O, active, pool, H, where, rep, rel, hist, named, errs>>
+  /\ UNCHANGED <<tid, l, O, active, pool, H, where, rep, rel, hist, named, namedc, errs>>
 
 Next == Step \/ Finish
 Spec == Init /\ [][Next]_vars
